@@ -9,6 +9,7 @@ import (
 	"sort"
 	"strings"
 	"time"
+	"tsim/genfault"
 
 	"github.com/ethereum/go-ethereum/common"
 	"github.com/ethereum/go-ethereum/consensus/misc"
@@ -294,6 +295,7 @@ func (w *ethWorld) apply(op kernel.Op) {
 		if w.host.InBlock {
 			return
 		}
+		genfault.Run(w.rec, w.host, int64(w.host.Height)+op.Arg(0))
 		for _, is := range w.host.ModuleRoundTrip() {
 			w.rec.Violate("C13", "roundtrip", "eth:"+is.Key, "eth world: %s", is.Detail)
 		}
